@@ -243,7 +243,10 @@ func (fx *FnCtx) contractCall(st *State, pc *Term, fc *FuncContract, f *ssa.Func
 
 func (fx *FnCtx) contractCallWithNames(st *State, pc *Term, fc *FuncContract, names []string, args []Value, rt types.Type, sig *types.Signature) Value {
 	tc := fx.tc
-	if fx.V.modeOf(fc) != tc.Mode && !fc.Trusted && fc.Mode != "" {
+	if fc.AnyMode && fx.V.modeOf(fc) != tc.Mode {
+		fx.root.noteOnce("contract of " + fc.Name + " applied across integer modes (declared anymode: its spec expressions are assumed free of wrap-around)")
+	}
+	if fx.V.modeOf(fc) != tc.Mode && !fc.Trusted && fc.Mode != "" && !fc.AnyMode {
 		fx.fail("call to %s crosses integer modes (%s caller, %s callee)", fc.Name, tc.Mode, fc.Mode)
 	}
 	var pkg *types.Package
